@@ -482,8 +482,16 @@ func c18WatchdogOutlivesRequest(c *Ctx, r *Report, rule string) {
 					member = p.Elems[len(p.Elems)-1]
 				}
 			}
-			if obj.Pkg().Path() == "time" && obj.Name() == "After" && len(call.Call.Args) == 1 {
-				if k, ok := constInt(call.Call.Args[0]); ok && (tmo < 0 || k < tmo) {
+			// the time-out of the wait: time.After(d), time.NewTimer(d), context.WithTimeout(ctx, d)
+			var dur ssa.Value
+			switch {
+			case obj.Pkg().Path() == "time" && (obj.Name() == "After" || obj.Name() == "NewTimer") && len(call.Call.Args) == 1:
+				dur = call.Call.Args[0]
+			case obj.Pkg().Path() == "context" && obj.Name() == "WithTimeout" && len(call.Call.Args) == 2:
+				dur = call.Call.Args[1]
+			}
+			if dur != nil {
+				if k, ok := constInt(dur); ok && (tmo < 0 || k < tmo) {
 					tmo = k
 				}
 			}
